@@ -60,7 +60,7 @@ Resolve(h, env, in) ==
              pick  == IF Get(in, "chal", "last") = "last" /\ exact # {} THEN exact ELSE cands IN
          IF pick = {} THEN [k |-> "Nop"]
          ELSE [k |-> "hs", from |-> in.from, src |-> in.claim, chal |-> env.froml[CHOOSE i \in pick : \A j \in pick : j <= i].idn,
-               signer |-> IF Get(in, "sig", "own") = "bad" THEN "bad" ELSE in.party,
+               signer |-> IF Get(in, "sig", "own") # "own" THEN "bad" ELSE in.party,     \* "bad" (another key), "zero64" / "junk0" / "junk63" (no signature at all)
                rec |-> RecOf(Get(in, "rec", "none")), recname |-> Get(in, "rec", "none"),
                key |-> Name("k", env.nk + 1), n |-> Name("m", env.nm + 1), msg |-> Msg(in.msg)]
     [] in.k = "PeerMessage" ->
